@@ -93,6 +93,15 @@ def search(chk, broken):
         a, b, c = fire([]), fire([pbc.Wind()]), fire([pbc.Wind(U.MPH(0), U.Degree(rng.uniform(0, 360)), U.Foot(float(u))) for u in untils])
         if not ([key(r) for r in a] == [key(r) for r in b] == [key(r) for r in c]):
             chk.failures.append(Failure('zero-wind', 'empty list, [Wind()] and zero-speed winds differ', {'op': 'zero-wind'}))
+        # 2b. a CALM first segment is a segment like any other: up to its end the trajectory is the no-wind one, whatever blows beyond
+        u1 = float(untils[0])
+        calm_first = fire([pbc.Wind(U.MPH(0), U.Degree(rng.uniform(0, 360)), U.Foot(u1))] + ws[1:])
+        for r1, r2 in zip(a, calm_first):
+            if (r1.distance >> U.Foot) <= u1 - 1.0 and key(r1) != key(r2):
+                chk.failures.append(Failure('calm-segment-skipped', f'with a zero-speed wind up to {u1} ft followed by other winds the row at {r1.distance >> U.Foot} ft differs from '
+                                                                    f'the no-wind row: the wind of a later segment acts before its segment begins',
+                                            {'op': 'wind-calm-first', 'untils_ft': untils, 'row_ft': r1.distance >> U.Foot}))
+                break
         # 3. causality: change / add segments beginning beyond until[j]
         j = rng.randrange(k - 1)
         D = float(untils[j])
